@@ -85,6 +85,8 @@ def run(ctx):
                     ctx.ob("R1", "forward-args:%s::%s" % (short, meth), ok and okr, "child call receives (%s) on %s; must pass its own arguments through to its own children" % (", ".join(o.fmt() for o in rest), recv.fmt()), fn=f, where=prim.site(f, b), how="provenance slice")
                 if r == "iter":
                     o = prim.origin_of_operand(f, t.args[0]).strip()
+                    while o.k == "call" and o.a["name"] in ("deref", "as_slice", "as_ref", "borrow") and o.kids:
+                        o = o.kids[0].strip()            # the Vec handed on as a slice (to a shared helper)
                     ctx.ob("R1", "iterates-own-children:%s::%s" % (short, meth), o.k == "field" and o.a in [n for n, _ in fields], "iterates %s" % o.fmt(), fn=f, where=prim.site(f, b), how="provenance slice", nontrivial=False)
 
     # ---- R2 flush on every exit of the walk -------------------------------------------------------------
